@@ -186,6 +186,7 @@ class Desk:
         self.v_prev = None
         self.fix_dict = {}          # reused dict object (variant)
         self.fixed_prev = None      # variables that were fixed in the solve that produced x_prev
+        self.layout_prev = None     # what the positions of x_prev stand for
         self.grid_set = False
 
     def fault(self, k):
@@ -228,8 +229,19 @@ class Desk:
         self.events.append(("init", canon.digest_canon({"v": float(res.value)}, nd=5)))
         return True
 
+    @staticmethod
+    def layout(op):
+        """what each variable index stands for: sorted (asset, node, var_name, type, time_step) of its mapping rows"""
+        m = op.mapping
+        cols = [c_ for c_ in ("asset", "node", "var_name", "type", "time_step") if c_ in m.columns]
+        d = {}
+        for i_, row in zip(m.index.to_numpy(), m[cols].astype(str).to_numpy()):
+            d.setdefault(int(i_), []).append("|".join(row))
+        return {k_: tuple(sorted(v_)) for k_, v_ in d.items()}
+
     def accept(self, res, op, curve, fixed=None):
         self.fixed_prev = fixed
+        self.layout_prev = self.layout(op)
         x = np.array(res.x, dtype=float)
         for i in bool_vars(op):
             if abs(x[i] - round(x[i])) < 1e-6:
@@ -380,6 +392,17 @@ class Desk:
         if len(op.l) != n or len(op.u) != n:
             self.viol("F3-not-bounds-only", k, "number of variables changed", field="n")
             return
+        # --- F7: the held solution is addressed by position; the positions must still mean the same variables
+        if x_kind in ("solution", "longer") and getattr(self, "layout_prev", None) is not None:
+            lay = self.layout(op_free)
+            if lay != self.layout_prev:
+                diff_ = [k_ for k_ in sorted(set(lay) | set(self.layout_prev)) if lay.get(k_) != self.layout_prev.get(k_)]
+                self.viol("F7-previous-solution-misaligned", k,
+                          "the variables of the rebuilt problem are not those of the problem the held solution came from (same portfolio and grid, "
+                          "other prices): %d vs %d variables, first difference at index %s: %s vs %s" % (
+                              len(lay), len(self.layout_prev), diff_[:1], lay.get(diff_[0]) if diff_ else None,
+                              self.layout_prev.get(diff_[0]) if diff_ else None), field="layout")
+                return
         # --- F1 / F2
         m = op_free.mapping
         in_w = m["time_step"].isin(list(W)).values
